@@ -686,6 +686,48 @@ def run(ctx):
                f'with a CTE named `sales`, FROM {label} is planned as {got!r} but must be {want!r}: a CTE shadows only the unqualified name; a table of an '
                f'integration that happens to have the same name is a different table', file=QP, line=gis.lineno,
                witness='with sales as (select ...) select * from sales s join int1.sales t on ...')
+    # ---- a select in FROM is planned as it is written: its ORDER BY / LIMIT / OFFSET / DISTINCT / grouping decide WHICH rows it returns, whatever the outer query
+    # does with them afterwards
+    pns = function_named(qp, 'plan_mdb_nested_select')
+    if pns is None:
+        ctx.note('QueryPlanner.plan_mdb_nested_select not found')
+    else:
+        nn = 0
+        inner_opts = {'order_by': [Obj('OrderBy', field=ident('x'), direction='DESC', nulls='default')], 'limit': const(2), 'offset': const(1), 'where': cmp_('y'),
+                      'group_by': [ident('x')], 'distinct': True}
+        outer_opts = {'order_by': [Obj('OrderBy', field=ident('t.y'), direction='default', nulls='default')], 'limit': const(5), 'offset': const(3), 'where': cmp_('t.x'),
+                      'distinct': True}
+        for inner_set, outer_set in itertools.product([c for r_ in range(0, 4) for c in itertools.combinations(sorted(inner_opts), r_)],
+                                                      [c for r_ in range(0, 3) for c in itertools.combinations(sorted(outer_opts), r_)]):
+            inner = select_ctor(None, targets=[ident('x'), ident('y')], from_table=Obj('Identifier', parts=['int1', 't1'], alias=None),
+                                alias=Obj('Identifier', parts=['t'], alias=None), parentheses=True, **{k: inner_opts[k] for k in inner_set})
+            reference = inner.clone()
+            outer = select_ctor(None, targets=[Obj('Star')], from_table=inner, **{k: outer_opts[k] for k in outer_set})
+            planned = []
+            stubs = base_stubs()
+            stubs['self.plan_select'] = lambda it, q, *a, **k: (planned.append(q), Obj('Step', result='R'))[1]
+            stubs['self.plan_sub_select'] = lambda it, q, step, *a, **k: Obj('Step', result='R2')
+            self_ = Obj('QueryPlanner', plan=Obj('QueryPlan', steps=[Obj('Step', result='R')]), default_namespace='mindsdb')
+            it = interp_for(stubs, file=QP)
+            try:
+                it.call_function(pns, [self_, outer], {}, _env())
+            except Raised as r:
+                if r.exc_name in ('PlanningException', 'NotImplementedError'):
+                    continue
+                raise AnalysisError(f'plan_mdb_nested_select raises {r.exc_name}')
+            nn += 1
+            label = f'inner [{", ".join(inner_set) or "plain"}] / outer [{", ".join(outer_set) or "plain"}]'
+            ok = len(planned) == 1 and all(_same(getattr(planned[0], f), getattr(reference, f)) for f in
+                                           ('targets', 'from_table', 'where', 'group_by', 'having', 'order_by', 'limit', 'offset', 'distinct'))
+            diff = [f for f in ('targets', 'from_table', 'where', 'group_by', 'having', 'order_by', 'limit', 'offset', 'distinct')
+                    if planned and not _same(getattr(planned[0], f), getattr(reference, f))]
+            ctx.ob('C08.nested-select-kept', label, ok,
+                   f'[{label}] the select in FROM is planned with a different {diff or "number of plans (" + str(len(planned)) + ")"}: its own ORDER BY / LIMIT / OFFSET / DISTINCT / '
+                   f'grouping decide which rows it returns; dropping or changing one because of a clause of the OUTER query returns other rows', file=QP, line=pns.lineno,
+                   witness='select * from (select x, y from int1.t1 order by x desc limit 2) t order by t.y')
+        rows += nn
+        ctx.setcount('nested_select_rows', nn)
+        ctx.floor('nested_select_rows', 300)
     # ---- api-type integration: which clauses go into the fetch and which stay outside ---------------------------------------------------------------
     pads = function_named(qp, 'plan_api_db_select')
     if pads is None:
